@@ -5,7 +5,7 @@ LEVEL = "other"
 EXHAUSTIVE = True
 EXPLANATION = ("Structural clauses of C20, each decided on all paths: (RR) one request, one reply on both sides of the channel pair, Cancel "
                "returns; (PAIR) the request and reply variants of the six Cache methods agree with what the analysis thread produces; (ORDER) "
-               "didOpen/didChange invalidate, re-analyse the last text they were given, then fetch diagnostics; (PANIC) no unaudited panic site "
+               "didOpen/didChange invalidate, re-analyse the last text they were given, then fetch diagnostics; (SAME) the server runs the same lex/parse/sema pipeline as the command line and publishes from the vector it filled; (PANIC) no unaudited panic site "
                "in the handlers, the Cache or the analysis thread - table reasons may not assume a valid position or an open document; (SPAN) "
                "every span converted for the client is a lexer/tree span. Agreement of definition/references with the text, hover content and "
                "range containment are not decided (run-time arithmetic inside codespan_lsp).")
@@ -14,6 +14,7 @@ EXPLANATION = ("Structural clauses of C20, each decided on all paths: (RR) one r
 def run(ctx, rep):
     lsp.rr_pair(ctx, rep)
     lsp.order_rule(ctx, rep)
+    lsp.same_pipeline_rule(ctx, rep)
     panicrules.evaluate(ctx, rep, ["C20"])
     rep.floor("PANIC", 40, "audited panic sites")
     panicrules.span_rule(ctx, rep)
